@@ -11,7 +11,8 @@ from symx import lib, stubs
 
 META = dict(
     bounds=dict(
-        quick=dict(meshes="(4,4,4), (3,5,4), (4,6,3), (3,3,2) with concrete anisotropic cells", rotations="quarter turns, (3,4,5) and (5,12,13) rotations about each axis, products of two",
+        quick=dict(also="default resolution for Euler-angle quarter turns on decimal cubic cells",
+                   meshes="(4,4,4), (3,5,4), (4,6,3), (3,3,2) with concrete anisotropic cells", rotations="quarter turns, (3,4,5) and (5,12,13) rotations about each axis, products of two",
                    nvdim="1 and 3", mapping="identity, swap, both cyclic permutations", values="symbolic per cell; uniform and linear fields with symbolic coefficients",
                    new_region="symbolic 3x3 matrix (unconstrained) and symbolic edges", target_n="explicit"),
         thorough=dict(meshes="as quick plus (4,4,3)", rotations="as quick plus three-fold products and non-axis rotations built from rational quaternions", nvdim="1 and 3", mapping="all six permutations",
